@@ -728,8 +728,9 @@ def run(ctx: Ctx):
             pass
         else:
             raise InfraError(f"model driver answered {cert!r}")
-        if cert.startswith("fail") or (mirror is not None and mirror != sm):
-            # failing-input search: many more sequences, exhaustive short ones first
+        if (cert.startswith("fail") or (mirror is not None and mirror != sm)) and n_cert_fail + n_mir_bad <= 40:
+            # failing-input search: many more sequences, exhaustive short ones first (bounded number of designs:
+            # a change that breaks many designs is caught on the first ones)
             seqs = [list(s) for s in itertools.product([0, (1 << NC) - 1], repeat=8)] + gen_inputs(rng, 300, 80) + seqs
         sim_jobs.append((sx, vhdl, seqs))
         sim_meta.append((p, src, sx, vhdl, sm, cert, mirror))
